@@ -98,7 +98,8 @@ func toInt(v any) int {
 func init() {
 	register("C17", func(c *engine.Ctx) {
 		c.Rule = "random programs generated with --extra-imports (tree fragment plus scalar defaults; no date/time formats and no mixed enums: known finding K9); documents: a fully populated valid document, schema-directed valid documents, and single-fault documents (one required key removed, one bound exceeded by 1, one length off by 1, one pattern mismatch, one non-member of a string enum); plus required integer keys named with every punctuation character a tag may contain and with verb-like names (cpu%, %s, 100%, {{.}}): valid, each key missing, each bound exceeded; each decoded through the real UnmarshalJSON and the real UnmarshalYAML: same verdict and same re-marshalled value. Distinct = distinct (fault kind, verdict pair, document shape)."
-		c.Proofs([]string{"GJS.Props.C17", "GJS.Props.ExactYaml"}, []string{
+		c.Proofs([]string{"GJS.Props.C17", "GJS.Props.ExactYaml", "GJS.Props.FlatExact", "GJS.Props.TreeExact"}, []string{
+			"GJS.Props.Flat.flat_end_to_end_yaml", "GJS.Props.Flat.flat_end_to_end_full_yaml", "GJS.Props.Tree.tree_end_to_end_yaml",
 			"GJS.Props.C17.acc_yaml_iff_json", "GJS.Props.C17.certified_exact_yaml", "GJS.Props.C17.certified_exact_yaml_wcB", "GJS.Props.C17.certified_yaml_json_same_set",
 			"GJS.Props.C17.runAfter_wire_independent", "GJS.Props.C17.runBefore_wire_independent", "GJS.Props.C17.prim_decode_agree",
 			"GJS.Props.C17.method_same_statements", "GJS.Props.C17.yaml_json_agree", "GJS.Props.C17.wcB_sound", "GJS.Props.C17.certified_yaml_json_agree", "GJS.Props.C17.yaml_json_same_verdict", "GJS.Props.C17.agree_all", "GJS.Props.C17.KF_yaml_int_in_mixed_enum", "GJS.Props.C17.KF_yaml_truncates_fraction",
